@@ -23,7 +23,7 @@ set_option linter.unusedSimpArgs false
 namespace Econf
 
 /-- the settings part of the process-wide state -/
-def settingsOf (g : Global) : (Bool × Nat × Bool × Nat × Bool) × List Str := (secOf g, dataOf g)
+def settingsOf (g : Global) : (Bool × Nat × Bool × Nat × Bool × Bool × Nat × Nat) × List Str := (secOf g, dataOf g)
 
 /-- a system of calls on private state -/
 structure CallSys where
